@@ -232,6 +232,13 @@ def classify(v, known):
     if v.get('kind') == 'oracle' and m.get('mode') == 'inside' and m.get('target') in ('circle', 'ellipse') \
             and len(m.get('refs', [])) >= 2 and any(k in ('circle', 'ellipse') for k, _ in m['refs']):
         return 'K18'
+    # K24: a round target inside ONE round reference with margins that differ per side: the shrunk
+    # bounding box is no longer concentric with the reference, and the ellipse inscribed in it can
+    # cross the reference's outline near a corner of its bounding box
+    if v.get('kind') == 'oracle' and m.get('mode') == 'inside' and m.get('target') in ('circle', 'ellipse') \
+            and len(m.get('refs', [])) == 1 and m['refs'][0][0] in ('circle', 'ellipse') and m.get('margin') \
+            and len(set((k, val) for k, val in m['margin'])) > 1 and 'outside the referenced' in v.get('what', ''):
+        return 'K24'
     return None
 
 
@@ -244,6 +251,6 @@ def replay_known(kf, ctx):
         return False
     root, _, _ = xmlcanon.parse(bytes.fromhex(r[1]))
     els = [n for n in root.iter() if n.name in ('circle', 'ellipse')]
-    refs = [(n.name, scene.bbox_of(n.name, n.attrs)) for n in els[:2]]
-    got = scene.bbox_of(els[2].name, els[2].attrs)
-    return any(not inside_shape(k, bb, p) for p in outline_points('circle', got) for k, bb in refs)
+    refs = [(n.name, scene.bbox_of(n.name, n.attrs)) for n in els[:-1]]
+    got = scene.bbox_of(els[-1].name, els[-1].attrs)
+    return any(not inside_shape(k, bb, p) for p in outline_points(els[-1].name, got) for k, bb in refs)
